@@ -159,7 +159,7 @@ fn supervise(args: &[String]) -> i32 {
   run.rule("exploration aborted: the subject died with a fatal signal on the sampled case; counts are the cases completed before it");
   run.set("wall_before_crash_s", serde_json::json!(t0.elapsed().as_secs_f64()));
   let sig = v["signature"].as_str().unwrap_or("crash").to_string();
-  run.violation(report::Violation { property: id.clone(), signature: format!("{}:{}", v["case"]["tag"].as_str().unwrap_or(""), sig), message: v["message"].as_str().unwrap_or("").to_string(), replay: v["case"].clone() });
+  run.violation(report::Violation { property: id.clone(), signature: format!("{}:{}", v["case"]["tag"].as_str().unwrap_or(id.as_str()), sig), message: v["message"].as_str().unwrap_or("").to_string(), replay: v["case"].clone() });
   let _ = std::fs::remove_file(&crash_path);
   run.finish()
 }
